@@ -3,7 +3,7 @@ P21 = "Claripy.Props.C21."
 P22 = "Claripy.Props.C22."
 V = "Claripy.VSA."
 THEOREMS_C21 = [P21 + n for n in ("C21_add_sound", "C21_add_closed", "C21_sub_sound", "C21_sub_closed", "C21_neg_sound",
-                                  "C21_not_sound", "C21_zext_sound", "C21_ucmp_sound", "C21_scmp_sound", "C21_cast_low_sound", "C21_extract_sound", "C21_sext_sound", "C21_udiv_sound", "C21_lshr_sound", "C21_shl_sound", "C21_or_sound", "C21_warren_bounds", "C21_and_sound", "C21_xor_sound", "C21_concat_sound", "C21_ashr_sound",
+                                  "C21_not_sound", "C21_zext_sound", "C21_ucmp_sound", "C21_scmp_sound", "C21_cast_low_sound", "C21_extract_sound", "C21_sext_sound", "C21_udiv_sound", "C21_lshr_sound", "C21_shl_sound", "C21_or_sound", "C21_warren_bounds", "C21_and_sound", "C21_xor_sound", "C21_concat_sound", "C21_ashr_sound", "C21_eq_sound", "eq_unaligned_unsound",
                                   "sdiv_unsound", "mul_unaligned_unsound")] + \
                [V + n for n in ("ssplit_spec", "ssplit_wrap", "not_sound", "zext_sound", "ucmp_sound", "cmpWith_sound",
                                 "unsignedBounds_spec", "not_piece_mem", "widen_bits_mem",
@@ -21,9 +21,11 @@ TESTS_C21 = [P21 + "test_add_example"]
 THEOREMS_C22 = [P22 + n for n in ("C22_top_mem", "C22_new_mem", "C22_pseudo_join_sup", "C22_lub_sup", "C22_union_sup",
                                   "C22_members_exact", "C22_cardinality_exact", "C22_solution_exact", "C22_eval_exact", "C22_min_max_bound", "C22_min_exact", "C22_max_exact_aligned", "C22_signed_min_max_bound",
                                   "widen_unsound", "widen_wrap_unsound", "widen_offset_unsound",
-                                  "meet_unaligned_unsound", "max_unaligned_wrong")] + \
+                                  "meet_unaligned_unsound", "max_unaligned_wrong", "C22_meet_aligned", "C22_meet_closed", "meet_nonnormal_unsound")] + \
                [V + n for n in ("pseudoJoin_sup", "pseudoJoin_WF", "lub_sup", "union_sup", "contain_abs", "overlap_abs", "disjoint_abs",
                                 "isSurrounded_true", "isSurrounded_false", "reduceJoin_sup", "renorm_mem",
                                 "mem_members", "members_nodup", "cardinality_exact", "solution_exact", "multiMeet_int",
-                                "eval_exact", "evalLoop_spec", "min_le", "le_max", "smin_le", "le_smax", "min_attained", "max_attained", "mem_ub", "signedBounds_spec", "unsignedBounds_spec")]
+                                "eval_exact", "evalLoop_spec", "min_le", "le_max", "smin_le", "le_smax", "min_attained", "max_attained", "mem_ub", "signedBounds_spec", "unsignedBounds_spec",
+                                "meet_sound", "multiMeet_sound", "multiMeet_proper_sound", "mci_order", "minimalCommonInteger_spec", "mci_spec", "diop_spec", "diopCore_spec", "extendedEuclid_spec",
+                                "geo_C1", "geo_C2", "geo_C3a", "geo_C3b", "geo_C3c", "geo_C4", "geo_C5", "geo_C6", "geo_C7", "geo_none", "aligned_two", "meetFrom_mem")]
 TESTS_C22 = [P22 + "test_join_example"]
